@@ -383,15 +383,12 @@ func c9EncoderScript(c *Ctx, w *c09Watch, slot int, g c9Gen) {
 				// equal after respelling; a case that needs both is filed under both kinds.
 				kinds := []string{"encoder-mismatch"}
 				if err1 == nil && err2 == nil {
-					u2028 := func(b []byte) []byte {
-						return bytes.ReplaceAll(bytes.ReplaceAll(b, []byte("\u2028"), []byte(c09BU+"2028")), []byte("\u2029"), []byte(c09BU+"2029"))
-					}
-					switch {
-					case c9FFFD(out1, out2) != "":
+					switch f, u, ok := c9AlignSpellings(out1, out2); {
+					case ok && f && !u:
 						kinds = []string{"encoder-mismatch[invalid-utf8-fffd-spelling]"}
-					case bytes.Equal(u2028(out2), out1):
+					case ok && u && !f:
 						kinds = []string{"encoder-mismatch[raw-u2028-with-escapehtml-off]"}
-					case bytes.Contains(out2, []byte(c09BU+"fffd")) && bytes.Equal(u2028(c9RespellFFFD(out2)), out1):
+					case ok && f && u:
 						kinds = []string{"encoder-mismatch[invalid-utf8-fffd-spelling]", "encoder-mismatch[raw-u2028-with-escapehtml-off]"}
 					}
 				}
